@@ -26,11 +26,11 @@ import Pog.Model.Fresh
 
     force path = diff path?  (FULL ✗: a non-force re-run over a force-generated tree succeeds)
       dedup_not_idempotent_counterexample                    ✗ `emit ∘ emit ≠ emit` on `foo, foo, foo_2`
-      force_double_emit_counterexample                       ✗ exactly `endpoints/default.py` and
+      force_equals_diff_path_former_witness (F19 repaired)   the force tree equals the diff tree for `foo, foo, foo_2`; formerly `endpoints/default.py` and
                                                                `mocks/endpoints/mock_default.py` differ
       force_equals_diff_path_idempotent_example              the two trees coincide for `foo, bar`
       rich_init_only_on_force_counterexample                 ✗ explicit `core_package`: `__init__.py` differs
-      rerun_after_force_succeeds_example / _double_emit_counterexample / _rich_init_counterexample
+      rerun_after_force_succeeds_example / rerun_after_force_former_double_emit_witness / _rich_init_counterexample
                                                              the same three facts through `runGenerate` end to end
       shared_registry_rerun_counterexample                   ✗ shared core: the diff path starts from an
                                                                EMPTY registry, the force path from the one on disk
@@ -241,20 +241,16 @@ def treeDiff (a b : Tree) : List (List Str) :=
   (a.filter (fun e => b.lookup e.1 != some e.2)).map (·.1) ++
   (b.filter (fun e => (a.lookup e.1).isNone)).map (·.1)
 
-/-- ✗ FULL STATEMENT `force_equals_diff_path` (the tree written by the force path is the tree the
-    diff path compares against).  With operation ids `foo, foo, foo_2` the two trees differ in
-    exactly two files: `endpoints/default.py` (written by the second evaluation of `emit`:
-    `foo, foo_2, foo_2_2` instead of `foo, foo_2, foo_2`) and `mocks/endpoints/mock_default.py`
-    (generated after two passes instead of one).  Hence a non-force re-run over a tree that was
-    just generated with `--force` reports differences. -/
-theorem force_double_emit_counterexample :
+/-- `force_equals_diff_path` on the former witness of F19 (repaired: the force path evaluates every emitter once). With operation ids
+    `foo, foo, foo_2` the force tree and the tree the diff path compares against are now the same - both carry the (still
+    colliding, F17) names `foo, foo_2, foo_2` - and a non-force re-run over a tree just generated with `--force` reports no
+    differences. -/
+theorem force_equals_diff_path_former_witness :
     let sp := opsSpec ["foo".toList, "foo".toList, "foo_2".toList]
     let c := demoCfg "client" none
-    treeDiff (forceTree id c sp) (diffTree id c sp) =
-      [["endpoints".toList, "default.py".toList], ["mocks".toList, "endpoints".toList, "mock_default.py".toList]] ∧
-    (forceTree id c sp).lookup ["endpoints".toList, "default.py".toList] = some "foo\nfoo_2\nfoo_2_2".toList ∧
-    (diffTree id c sp).lookup ["endpoints".toList, "default.py".toList] = some "foo\nfoo_2\nfoo_2".toList ∧
-    showDiffs (forceTree id c sp) (diffTree id c sp) = true := by
+    treeDiff (forceTree id c sp) (diffTree id c sp) = [] ∧
+    (forceTree id c sp).lookup ["endpoints".toList, "default.py".toList] = some "foo\nfoo_2\nfoo_2".toList ∧
+    showDiffs (forceTree id c sp) (diffTree id c sp) = false := by
   decide +kernel
 
 /-- When the pass happens to be idempotent (`foo, bar`) and the core is embedded, both paths
@@ -296,11 +292,10 @@ theorem rerun_after_force_succeeds_example :
     rerunOutcome (demoCfg "client" none) (opsSpec ["foo".toList, "bar".toList]) = Outcome.success := by
   decide +kernel
 
-/-- ✗ `foo, foo, foo_2`: the re-run over the tree just generated with force ends in
-    "Differences found" (oracle class `force-double-emit`). -/
-theorem rerun_after_force_double_emit_counterexample :
+/-- `foo, foo, foo_2` (the former witness of F19): the re-run over the tree just generated with force succeeds. -/
+theorem rerun_after_force_former_double_emit_witness :
     rerunOutcome (demoCfg "client" none) (opsSpec ["foo".toList, "foo".toList, "foo_2".toList])
-      = Outcome.raisedDiff := by
+      = Outcome.success := by
   decide +kernel
 
 /-- ✗ explicit core package: the re-run ends in "Differences found" (oracle class
